@@ -564,8 +564,10 @@ impl World {
             })
             .await;
         }
-        // let the log's IO task process Shutdown (final flush)
-        tokio::time::sleep(Duration::from_millis(20)).await;
+        // let the log's IO task process Shutdown (final flush). In production RaftLog::close() joins the IO thread;
+        // here the IO task runs on this runtime without a handle, so give it more (virtual) time than the slowest
+        // simulated disk needs for the writes that may still be in flight.
+        tokio::time::sleep(Duration::from_millis(20 + 4 * n.persistent.disk.lag_ms())).await;
         let t = self.now_ms();
         self.history.lock().unwrap().push(
             t,
